@@ -79,6 +79,9 @@ def guards(decl, cell):
         for character in cell:
             if not intervals.accepts(allowed_items, ord(character)):
                 return "chars", None
+    if fixed and cell.strip(" ") != "" and cell.strip() == "":
+        # only white space, but not only blanks (tabs, no-break spaces that are allowed characters): "empty" is not settled
+        return "grey", None
     is_empty = (cell.strip(" ") == "") if fixed else (cell == "")
     if is_empty:
         if fixed and len(cell) > decl["width"]:
@@ -97,7 +100,14 @@ def guards(decl, cell):
 _INT_RE = re.compile(r"-?(0|[1-9][0-9]*)\Z")
 
 
+def exotic_number_text(payload):
+    """Spellings the statement does not settle: white space around the number (Python's converters ignore it) and non-ASCII digits."""
+    return payload != payload.strip() or any(character.isdigit() and not character.isascii() for character in payload)
+
+
 def integer_model(decl, payload):
+    if exotic_number_text(payload):
+        return None, None
     if not _INT_RE.match(payload):
         return False, None
     number = int(payload)
@@ -117,6 +127,8 @@ def decimal_model(decl, payload):
     """payload must be: sign? digits (grouped by thousands separator or not) [decimal-separator digits]."""
     dec_sep = decl.get("dec_sep", ".")
     thou_sep = decl.get("thou_sep", "")
+    if exotic_number_text(payload):
+        return None, None
     text = payload
     sign = ""
     if text.startswith("-"):
